@@ -185,7 +185,7 @@ pub fn gen_url(rng: &mut Rng, n: usize, out: &mut Vec<String>) {
         let filt = String::from_utf8_lossy(&rand_filter(rng, 2, false)).into_owned();
         let attrs: Vec<String> = (0..1 + rng.below(4)).map(|_| rng.pick(&["cn", "sn", "*", "+", "1.1", "mail;lang-en", "2.5.4.3", "jpegPhoto;binary"]).to_string()).collect();
         let scope = *rng.pick(&["base", "one", "sub"]);
-        let kinds = ["bindname", "x-bindpw", "1.3.6.1.4.1.10094.1.5.1", "1.3.6.1.4.1.10094.1.5.2", "1.3.6.1.4.1.1466.20037", "x-unknown", "1.2.3.4", "BindName", "X-BINDPW"];
+        let kinds = ["bindname", "x-bindpw", "1.3.6.1.4.1.10094.1.5.1", "1.3.6.1.4.1.10094.1.5.2", "1.3.6.1.4.1.1466.20037", "x-unknown", "1.2.3.4", "BindName", "X-BINDPW", "bindname2", "x-bindpw-sha256", "bindnam", "x-bind", "BINDNAMES"];
         let nex = rng.below(4) as usize;
         let exts: Vec<String> = (0..nex).map(|_| { let k = *rng.pick(&kinds); let crit = rng.chance(1, 3);
             let v = rand_unicode(rng); format!("{}{}{}", if crit { "!" } else { "" }, k, if k.ends_with("20037") && rng.chance(2, 3) { String::new() } else { format!("={}", penc(v.as_bytes(), &unreserved, rng.chance(1, 2))) }) }).collect();
